@@ -34,8 +34,19 @@ func TestPlan(t *testing.T) {
 	}
 	defer fh.Close()
 	em := &Emitter{W: bufio.NewWriterSize(fh, 1<<20)}
+	if sp := os.Getenv("VERIF_STREAM_OUT"); sp != "" {
+		sfh, err := os.OpenFile(sp, os.O_CREATE|os.O_WRONLY|os.O_APPEND, 0o644)
+		if err != nil {
+			t.Fatal(err)
+		}
+		defer sfh.Close()
+		em.SW = bufio.NewWriterSize(sfh, 1<<20)
+	}
 	for i := start; i < len(plan); i += step {
 		RunStream(em, i+1, &plan[i])
 		em.W.Flush()
+		if em.SW != nil {
+			em.SW.Flush()
+		}
 	}
 }
